@@ -315,8 +315,18 @@ fn generate_ui(helper: &CommandHelper, args: &GenerateUiArgs) -> Result<(), Comm
     };
     let ctx = BuildContext::prepare(&type_map, file_name_rules, dynamic_binding_handling)
         .map_err(anyhow::Error::from)?;
+    // A rejected source must not decide whether the sources named after it are translated:
+    // process every source, then report failure.
+    let mut diagnostic_generated = false;
     for p in &args.sources {
-        generate_ui_file(&ctx, &docs_cache, p, args.output_directory.as_deref())?;
+        match generate_ui_file(&ctx, &docs_cache, p, args.output_directory.as_deref()) {
+            Ok(()) => {}
+            Err(CommandError::DiagnosticGenerated) => diagnostic_generated = true,
+            Err(e) => return Err(e),
+        }
+    }
+    if diagnostic_generated {
+        return Err(CommandError::DiagnosticGenerated);
     }
     Ok(())
 }
